@@ -168,6 +168,14 @@ def _mb_doc(draw):
         q = draw(st.sampled_from([("“", "”"), ("‘", "’"), ("—", "—"), ("é", "ü"), ("§", "¶"), ("𝒜", "…")]))
         frag = draw(st.one_of(legal.full(), legal.short(), legal.idc(), legal.supra(), st.sampled_from(legal.LAWS)))
         t = t + draw(st.sampled_from([" ", ". ", ""])) + q[0] + frag + q[1] + draw(st.sampled_from(["", " x", "."]))
+    if draw(st.integers(0, 2)) == 0:
+        # citations separated by exactly one multi-byte character and nothing else (2-, 3- and 4-byte separators)
+        cit = st.one_of(legal.full(), legal.short(), legal.idc(), st.sampled_from(legal.LAWS), legal.pattern_citation())
+        sep = st.sampled_from(["§", "¶", "·", "é", "ü", "ñ", "—", "“", "”", "…", "𝒜"])
+        chain = draw(cit)
+        for _ in range(draw(st.integers(1, 3))):
+            chain += draw(sep) + draw(cit)
+        t = t + draw(st.sampled_from([" ", ". ", "\n"])) + chain
     return {"text": sanitize(t)}
 
 
